@@ -127,7 +127,7 @@ def run(chk: Check) -> None:
     subject = ac.params[1] if len(ac.params) > 1 else 'command'
     branches, else_body = ladder(ac, subject)
     chk.need(bool(branches), 'no isinstance ladder over the command found in Running._action_command')
-    chk.floor('DISP-command', len(branches), 4)
+    chk.floor('DISP-command', len(branches), 2)
 
     cmd_base = prog.cls('process_states.Command')
     universe = [c for c in prog.subclasses(cmd_base) if '__init__' in c.methods]
